@@ -389,6 +389,17 @@ def run(tier):
     ck.sample({"S->I input": icases[len(icases) // 2]["inp"], "expected": icases[len(icases) // 2]["g"]})
     ck.sample({"S->I gen_seq input": gcases[len(gcases) // 3]["inp"], "behaviour": [h["act"] for h in gcases[len(gcases) // 3]["hist"]],
                "expected": gcases[len(gcases) // 3]["g"]})
+    # non-vacuity of the corners the statement names
+    nv = {"circular": sum(1 for x in icases if x["inp"]["circ"]),
+          "one_residue": sum(1 for x in fcases + icases + pcases if x["g"]["n"] == 1),
+          "several_lines": sum(1 for x in fcases + icases + pcases if x["inp"]["fam"] == "file" and len(x["inp"]["lines"]) > 1),
+          "terminal_name_left_open": sum(1 for x in fcases + icases if u._seq(x["free"])),
+          "gen_seq_two_connect_records": sum(1 for x in gcases if len(u._seq(x["inp"]["connects"])) == 2),
+          "gen_seq_renamed_and_labelled": sum(1 for x in gcases if u._seq(x["inp"]["ends"]) and u._seq(x["inp"]["labels"])),
+          "gen_seq_three_instances": sum(1 for x in gcases if len(x["inp"]["seq"]) == 3)}
+    if not all(nv.values()):
+        raise c.MachineryError("vacuous instance: %s" % nv)
+    ck.extra["instance_corners"] = nv
     _replay(ck, "fasta", fcases)
     _replay(ck, "ig", icases, devmap)
     _replay(ck, "plain", pcases)
